@@ -40,10 +40,12 @@ add("C04", "other",
     "compute_full raises exactly when started. Arbitrary call histories are exercised by the bounded stand-in (bit-exact comparison with fresh "
     "instances)." + MIX, TB)
 add("C05", "other",
-    "Proved for the triangular bank and for Fbank against the CONTRACT of ScalingFunction (strictly increasing, mutually inverse maps - C19): "
-    "vertices equally spaced on the scale, strictly increasing, from low_hz to min(high_hz, Nyquist) (Fbank: to high_hz <= floor(rate/2)); "
-    "ValueError exactly for the stated bad ranges; the truncated response equals the documented triangle (Fbank: the square root of the triangle "
-    "in mel) at every bin. Gain, 3 dB / ERB / L2 constants and the Gabor / gammatone banks are bounded (numeric)." + MIX, TB)
+    "Proved for the triangular bank, Fbank and the Gabor bank against the CONTRACT of ScalingFunction (strictly increasing, mutually inverse "
+    "maps - C19): vertices / band edges equally spaced on the scale and strictly increasing, from low_hz to min(high_hz, Nyquist) (Fbank, Gabor: "
+    "to high_hz <= floor(rate/2)); ValueError exactly for the stated bad ranges; triangular / Fbank truncated responses equal the documented "
+    "triangle (Fbank: its square root in mel) at every bin; every Gabor centre is the midpoint of its edges, lies strictly inside its supports_hz, "
+    "has a positive width and a temporal support (-d, d), d >= 1. Gain, 3 dB / ERB / L2 constants, scale_l2_norm and the gammatone bank are bounded "
+    "(numeric)." + MIX, TB)
 add("C06", "other",
     "Proved for the triangular bank and Fbank: start bin in [0, width), support within the half spectrum, taps equal to the documented response "
     "(so the rebuilt response is the full response), zero at DC / Nyquist, from the constructors' invariants (also proved). The 2 x threshold "
@@ -71,12 +73,15 @@ add("C10", "other",
 add("C11", "other",
     "Proved: read_signal's dispatch for an arbitrary force_as string (exactly the documented helper, called with (source, dtype, key, **kwargs), "
     "result returned unchanged; ValueError for a stream without force_as, kaldi/table with a stream, or an undocumented force_as, before any reader "
-    "runs), the suffix inference against the documented order (z3 strings), and wds_read_signal's totality. Container round trips are bounded." + MIX, TB)
+    "runs), the suffix inference against the documented order (z3 strings), wds_read_signal's totality, and the .npy / .npz / raw / .pt helpers "
+    "(one load of exactly the given source with the caller's keyword arguments, entry `key` or 'arr_0', one cast iff a dtype is given). Container "
+    "round trips (incl. long SPHERE headers) are bounded." + MIX, TB)
 add("C12", "other",
     "Proved: copy_samples' read loop against a ghost byte stream for every channel count, sample count and file length (cursor and decoded-prefix "
-    "invariants; result count = min(sample_count, whole frames present), values, shape, warning iff truncated, no uninitialised cell), for PCM and "
-    "both G.711 codings with and without expansion; both G.711 tables equal the ITU-T expansion on all 256 codes (exhaustive). Header parsing and "
-    "real files are bounded." + MIX, TB)
+    "invariants; result count = min(sample_count, whole frames present), values, shape, warning iff truncated, no uninitialised cell; a data "
+    "section that does not START with the shorten magic never reaches the shorten decoder), for PCM and both G.711 codings with and without "
+    "expansion; both G.711 tables equal the ITU-T expansion on all 256 codes (exhaustive); read_header accepts exactly the field combinations "
+    "with a known coding, non-zero counts and - for PCM only - a byte order. The byte-level header parsing and real files are bounded." + MIX, TB)
 add("C13", "other",
     "Proved (bit-vector VCs generated from the AST of the nested functions by guarded unrolling, one query per reader state): uvar_get(nbin) returns "
     "q * 2^nbin + field for a code of q zeros, a one and nbin bits, consumes exactly q + 1 + nbin bits and leaves the unread bits of its word "
@@ -86,8 +91,12 @@ add("C13", "other",
     "through an independent encoder, the six sph2pipe vectors, exhaustive checks of the arithmetic helpers." + MIX, TB)
 add("C14", "other",
     "Proved: pytorch_stft_frame_computer against the same specification as the NumPy computer, for every length/shift/DFT size/flag in the three "
-    "framing modes and N >= L or N < L//2+1: frame count and empty shape, padded signal = spec frames, as_strided memory safety, the mirrored walk, "
-    "per-column values and energy. float32, TorchScript, the wrappers and dither moments are bounded." + MIX, TB)
+    "framing modes and N >= L or N < L//2+1 (frame count and empty shape, padded signal = spec frames, as_strided memory safety, the mirrored "
+    "walk, per-column values and energy); pytorch_preemphasize and pytorch_dither against the specifications Preemphasize.apply / Dither.apply "
+    "are proved against; check_positive and PyTorchDither.__init__ (coeff 0 accepted); the two NumPy wrappers call apply / compute_full exactly "
+    "once on the CPU array with default flags and wrap the result with the input's device and dtype; from_stft_frame_computer hands every "
+    "constructor parameter the matching attribute and defaults to complex filters. float32, TorchScript, L//2+1 <= N < L and dither moments are "
+    "bounded." + MIX, TB)
 add("C15", "other",
     "Proved for tensors of rank 1-3 (Deltas) / 2-3 (Stack), every legal axis / time_axis, symbolic sizes: Deltas.apply filters every 1-D row "
     "exactly once; the stored row is out[t] = sum_j x_ext[t + j - (n-1)/2] * filt[j] of the row padded by (n-1)/2 on both sides with the "
@@ -98,12 +107,15 @@ add("C15", "other",
     "coincide; neither assigns to self. Assumed: numpy's pad / correlate / ndindex / reshape / concatenate contracts, the filters' odd lengths "
     "(constructor). Values for all pad modes, dtypes, rank 4, and reuse of one instance are bounded." + MIX, TB)
 add("C16", "other",
-    "Proved for vectors: _accumulate_vector adds (1, x, x^2) to the statistics (additivity), preserves the class invariant (integer count, "
-    "non-negative squares) and raises ValueError before writing on a length mismatch; _apply_vector returns (x - mean) * k with the accumulated "
-    "moments, float64, input untouched unless in_place; have_stats is true iff a vector was accumulated. Tensors, axes and local statistics are bounded." + MIX, TB)
+    "Proved for vectors and for tensors of rank 2-3 with every legal axis: accumulation adds (number of vectors, sums, sums of squares over "
+    "the OTHER axes) of the chosen axis' coefficients to the statistics (additivity), keeps the class invariant (integer count, non-negative "
+    "squares) and raises ValueError before writing on a length mismatch; apply returns (x - mean) * k per coefficient of the chosen axis with "
+    "the accumulated moments or - without statistics - the tensor's own, float64, the input object only when in_place and float64; have_stats "
+    "is true iff a vector was accumulated. Rank 4, the single-vector / zero-variance corners and dtype round-off are bounded." + MIX, TB)
 add("C17", "other",
     "Proved: every statistics state reachable through accumulate satisfies the invariant under which _sanitize_stats's validity test (read from the "
-    "source) accepts it on the first pass. Real files for every target/key/compress/overwrite combination are bounded." + MIX, TB)
+    "source) accepts it on the first pass; the .npy / .npz / raw readers the reload goes through load exactly the given file and, for .npz, the "
+    "entry `key` or 'arr_0'. Real files for every target/key/compress/overwrite combination and save/load sequences on one path are bounded." + MIX, TB)
 add("C18", "other",
     "Proved for 1-D signals with the default axis: Preemphasize.apply returns y[0]=x[0], y[i]=x[i]-coeff*x[i-1] with the OLD neighbour; Dither.apply "
     "adds coeff times one fresh RNG draw (so independent of the signal, linear in coeff); result dtype = input dtype; the input is stored into only "
@@ -119,4 +131,5 @@ add("C19", "proof",
 add("C20", "other",
     "Proved: circshift_fourier multiplies the filter by exp(-2 pi i (shift mod D)((start+k) mod D)/D) with D defaulted to len+start, every operand "
     "defined on every path, copy=True never storing into the input and copy=False/complex128 writing through; hertz_to_angular / angular_to_hertz "
-    "are mutual inverses. Window shapes, GammaWindow and gauss_quant accuracy/monotonicity are bounded." + MIX, TB)
+    "are mutual inverses; the Bartlett / Blackman / Hamming / Hann windows return exactly `width` samples equal to the numpy shape divided by "
+    "gain * max(1, width - 1). GammaWindow, the sums of the windows and gauss_quant accuracy/monotonicity are bounded." + MIX, TB)
